@@ -509,6 +509,18 @@ func kmsCase(o *hlib.Out, rng *hlib.Rng, mut bool, ep int, s pspec, tmpl *tinkpb
 					o.Violate("KMS envelope: nil/empty associated data are not interchangeable (%s)", desc)
 				}
 			}
+			// the other entry point over the same remote AEAD and DEK template reads the same envelope
+			alt := 0
+			if ep == 0 {
+				alt = 1
+			}
+			if other, err := buildEnv(alt, tmpl, k); err != nil {
+				o.Violate("KMS envelope AEAD could not be built (%s, DEK %v): %v", epNames[alt], s, err)
+			} else if b, e := other.dec(cp(saved[len(env.prefix):]), ad); rtOK && (e != nil || !bytes.Equal(b, pt)) {
+				o.Violate("a KMS envelope ciphertext made through %s is not decrypted by %s over the same key-encryption AEAD and DEK template (DEK %v, %s, |encrypted DEK|=%d): %v",
+					env.name, other.name, s, mode, len(wrapped), e)
+			}
+			o.Count("kms/cross-entry-decrypt")
 			if mut {
 				kmsMutations(o, mrng, env, k, s, desc, saved[len(env.prefix):], len(wrapped), dc, pt, ad, adTok)
 			}
@@ -701,7 +713,7 @@ func runKMS(o *hlib.Out, rng *hlib.Rng, mut bool) {
 	// quick-tier sizes: the round-trip mode (C01) has room for more than the mutation mode (C02)
 	reps, nReal, nFake := hlib.N(3, 12), hlib.N(100, 1000), hlib.N(20, 200)
 	if mut {
-		reps, nReal, nFake = hlib.N(1, 6), hlib.N(40, 500), hlib.N(10, 100)
+		reps, nReal, nFake = hlib.N(1, 3), hlib.N(40, 200), hlib.N(10, 50)
 	}
 	// 1. stub KMS: every wrapped-DEK length × every entry point × every DEK key type
 	for rep := 0; rep < reps; rep++ {
